@@ -114,8 +114,58 @@ HYPER = {
 }
 
 
+def _tied_cases(task, out):
+    """Weight tying: an Embedding (never swapped) or a Linear excluded by the filter shares its Parameter with a swapped Linear."""
+    from optimum.quanto import quantize
+
+    for variant in ("embedding", "filtered_linear"):
+        for wname in ("qint8", "qint4"):
+            for aname in (None, "qint8"):
+                c = ["tied", variant, wname, aname]
+                if task.get("only") and task["only"] != c:
+                    continue
+                torch.manual_seed(0)
+                if variant == "embedding":
+                    other = nn.Embedding(12, 8)
+                    head = nn.Linear(8, 12, bias=False)
+                    head.weight = other.weight
+                    model = nn.ModuleDict({"other": other, "head": head})
+                    sel = None
+                else:
+                    other = nn.Linear(8, 8, bias=False)
+                    head = nn.Linear(8, 8, bias=False)
+                    head.weight = other.weight
+                    model = nn.ModuleDict({"other": other, "head": head})
+                    sel = [head]
+                before = other.weight.detach().clone()
+                fields = {"kind": "structure", "weights": wname, "activations": aname, "dtype": "float32", "filtered": sel is not None, "root_eligible": False, "tied": variant}
+                case = dict(task, only=c)
+                out["evals"] += 1
+                out["calls"] += 1
+                out["points"] += 1
+                out["nontrivial"] += 1
+                kw = {"weights": num.qt(wname)}
+                if aname:
+                    kw["activations"] = num.qt(aname)
+                try:
+                    quantize(model, modules=sel, **kw)
+                    same_obj = model["other"] is other
+                    w = model["other"].weight
+                    ok = same_obj and w is not None and tuple(w.shape) == tuple(before.shape) and num.same_bits(w.detach(), before)
+                except Exception as e:  # noqa
+                    out["violations"].append(violation(PID, case, dict(fields, sub="raised"), f"raised: quantize() of a model with tied weights ({variant}): {type(e).__name__}: {e}"))
+                    continue
+                if not ok:
+                    out["violations"].append(violation(PID, case, dict(fields, sub="touched_unselected"), f"touched_unselected: quantize() altered the parameters of the untouched module sharing its weight with a quantized Linear ({variant}, {wname}, {aname})"))
+
+
 def _structure_task(task, out):
     from optimum.quanto import QModuleMixin, quantize
+
+    if task["lo"] == 0:
+        _tied_cases(task, out)
+    if task.get("only") and task["only"][0] == "tied":
+        return
 
     trees = _trees()[task["lo"]:task["hi"]]
     only = task.get("only")
